@@ -63,6 +63,7 @@ struct Stats {
 	kern_plain: u64,
 	kern_hl: u64,
 	kern_nrd: u64,
+	shared_excess: u64,
 	off_zero: u64,
 	off_nonzero: u64,
 	cut_pairs: u64,
@@ -93,6 +94,11 @@ struct World<'a> {
 	next_key: u32,
 	pool: Vec<PTx>,
 	st: Stats,
+	/// private excess to give the next built kernel (kernels of different transactions that share
+	/// their public excess: the "two halves" construction of core/tests/core.rs)
+	use_excess: Option<BlindingFactor>,
+	/// private excess and features of the kernel built last
+	last_excess: Option<(BlindingFactor, KernelFeatures)>,
 }
 
 fn err_name(e: &TxError) -> String {
@@ -153,16 +159,20 @@ impl<'a> World<'a> {
 		let (tx, blind_sum) =
 			build::partial_transaction(Transaction::empty(), &elems, self.kc, &self.pb).unwrap();
 		let secp = self.kc.secp();
-		let offset = match (mode, exact_offset) {
-			(_, Some(o)) => o,
-			(OffMode::Zero, None) => BlindingFactor::zero(),
-			(OffMode::Random, None) => BlindingFactor::from_secret_key(self.rand_scalar()),
+		let shared = self.use_excess.take();
+		let offset = match (mode, exact_offset, &shared) {
+			(_, Some(o), _) => o,
+			// the kernel gets the given excess: the offset makes up the difference
+			(_, None, Some(e)) => blind_sum.split(e, self.kc.secp()).unwrap(),
+			(OffMode::Zero, None, None) => BlindingFactor::zero(),
+			(OffMode::Random, None, None) => BlindingFactor::from_secret_key(self.rand_scalar()),
 		};
 		let excess = if offset.is_zero() {
 			blind_sum.clone()
 		} else {
 			blind_sum.split(&offset, secp).unwrap()
 		};
+		self.last_excess = Some((excess.clone(), features));
 		let mut kernel = TxKernel::with_features(features);
 		let msg = kernel.msg_to_sign().unwrap();
 		let skey = excess.secret_key(secp).unwrap();
@@ -247,7 +257,19 @@ impl<'a> World<'a> {
 				left -= v;
 				outs.push((v, self.fresh_key()));
 			}
-			let features = self.rand_features(fee as u32);
+			let mut features = self.rand_features(fee as u32);
+			// sometimes: a different kernel with the public excess of the previous transaction
+			if let Some((e, f0)) = self.last_excess.clone() {
+				if self.rng.chance(1, 5) {
+					let lock_height = match f0 {
+						KernelFeatures::HeightLocked { lock_height, .. } => lock_height + 1,
+						_ => self.rng.range(0, 5),
+					};
+					features = KernelFeatures::HeightLocked { fee: (fee as u32).into(), lock_height };
+					self.use_excess = Some(e);
+					self.st.shared_excess += 1;
+				}
+			}
 			let mode = if self.rng.chance(1, 4) {
 				OffMode::Zero
 			} else {
@@ -1023,6 +1045,8 @@ fn main() {
 		next_key: 0,
 		pool: vec![],
 		st: Stats::default(),
+		use_excess: None,
+		last_excess: None,
 	};
 
 	// ---- the pool of real transactions
@@ -1286,8 +1310,8 @@ fn main() {
 		st.cases, st.indep, st.chained, st.conflict, st.with_multikernel, st.with_v2, st.sizes
 	));
 	out.raw(&format!(
-		"#STAT kernels built: plain={} height-locked={} nrd={}; offsets: zero={} nonzero={}",
-		st.kern_plain, st.kern_hl, st.kern_nrd, st.off_zero, st.off_nonzero
+		"#STAT kernels built: plain={} height-locked={} nrd={} sharing-the-previous-excess={}; offsets: zero={} nonzero={}",
+		st.kern_plain, st.kern_hl, st.kern_nrd, st.shared_excess, st.off_zero, st.off_nonzero
 	));
 	out.raw(&format!(
 		"#STAT aggregate: ok={} err={:?} cut-through pairs (flat)={} permutations={} groupings={} (inner error {}) validate runs={} validate errors={:?}",
